@@ -22,9 +22,10 @@ import (
 )
 
 type raOp struct {
-	Op string `json:"op"`
-	C  string `json:"c"`
-	V  int    `json:"v"`
+	Op  string `json:"op"`
+	C   string `json:"c"`
+	V   int    `json:"v"`
+	Src string `json:"src"` // Reattach: take the configuration from this (already reattached) client instead of the original
 }
 type raCase struct {
 	Name     string `json:"name"`
@@ -113,6 +114,13 @@ func runReattachCase(c raCase, bin, tmp string) []map[string]interface{} {
 				break
 			}
 			cc := *cfg
+			if src, ok := clients[op.Src]; ok && op.Src != "c1" {
+				// a second-generation configuration: what a reattached client reports about itself
+				if rc := src.ReattachConfig(); rc != nil {
+					cc = *rc
+					ev["src"] = op.Src
+				}
+			}
 			cl := plugin.NewClient(&plugin.ClientConfig{HandshakeConfig: plugin.HandshakeConfig{ProtocolVersion: 1, MagicCookieKey: vp.CookieKey, MagicCookieValue: vp.CookieValue},
 				Plugins: hostSet(), Reattach: &cc, Logger: hclog.NewNullLogger(), AllowedProtocols: []plugin.Protocol{plugin.ProtocolNetRPC, plugin.ProtocolGRPC}})
 			cp, err := cl.Client()
